@@ -44,6 +44,7 @@ func C13_AllRoutes() {
 	o := settingsOpts()
 	o.emailAuth = verif.Choice("emailAuth", 2) == 1
 	f := newFlow(o)
+	f.thoroughAxes()
 	routes := f.routes()
 	route := verif.Param("route")
 	if route == "" {
@@ -57,7 +58,7 @@ func C13_AllRoutes() {
 	totpSec, hasTotpSec := S.Lookup2(totp2fa.SessionTOTPSecret)
 	smsSec, hasSmsSec := S.Lookup2(sms2fa.SessionSMSSecret)
 	smsNum, hasSmsNum := S.Lookup2(sms2fa.SessionSMSNumber)
-	sentBefore := len(f.w.SMS.Sent)
+	sentBefore := len(f.w.SMS.Tried)
 	_, panicked, _ := f.serve(route, v, nil)
 	if panicked {
 		return
@@ -68,8 +69,8 @@ func C13_AllRoutes() {
 	if postSec, has := f.w.Session.Lookup2(sms2fa.SessionSMSSecret); has {
 		where := f.smsSentTo
 		fresh := false
-		if len(f.w.SMS.Sent) > sentBefore {
-			m := f.w.SMS.Sent[len(f.w.SMS.Sent)-1]
+		if len(f.w.SMS.Tried) > sentBefore { // a message whose delivery failed went to nobody: its code is known to no other phone either
+			m := f.w.SMS.Tried[len(f.w.SMS.Tried)-1]
 			fresh = m.Text == postSec
 			where = verif.Ite(fresh, m.Number, where)
 		}
